@@ -14,7 +14,8 @@ Import ListNotations.
 Local Open Scope N_scope.
 
 (* Parents first, never twice, no panic — for every history.  From the initial state (only the
-   root known), for every list of bad blocks and every history of block announces, externally
+   root known), for every list of bad blocks and every history of block announces (SAnnounce:
+   straight into unreadyBlocks; SAnnounceMsg: through OnBlockAnnounce), externally
    imported blocks, finalisations and Process calls with ARBITRARY results (split, reordered,
    duplicated, forked, disconnected, forged, empty, unfinished; at most 12 ready fragments per
    call, requests asking for bodies as every request of full sync does):
@@ -138,7 +139,7 @@ Example C32_example :
   match run true true true [] (init_state 0) ex_history with
   | ([Some r1; Some r2], false, st) =>
     pr_events r1 = [EImport 1; EImport 2; EImport 3; ESkip 2; ESkip 3]
-    /\ map (map d_hash) (u_disjoint (p_un (pr_state r1))) = [[5]] /\ p_queue (pr_state r1) = [4]
+    /\ map (map d_hash) (u_disjoint (p_un (pr_state r1))) = [[5]] /\ p_queue (pr_state r1) = [QAncestors 4]
     /\ pr_events r2 = [EImport 4; EImport 5]
     /\ u_disjoint (p_un st) = []
   | _ => False
@@ -173,6 +174,28 @@ Example C32_body_batch_example :
   match run true true true [] (init_state 0) hist with
   | ([None; None; None; None; None; None; Some r], false, _) =>
     pr_events r = [EImport 5; EImport 6; EImport 3; EImport 4] /\ pr_error r = false
+  | _ => False
+  end.
+Proof. vm_compute. repeat split; reflexivity. Qed.
+
+(* block announces through OnBlockAnnounce (best block number 2): block 3 is new (tracked, body
+   requested), announced again it is not relevant, block 4 = H4 is a bad block, a block 200 ahead
+   is ignored; the body for 3 then arrives and 3 is imported after its parent 2 *)
+Example C32_announce_example :
+  let far := hd 9 8 300 in
+  let hist := [ SProcess [ res 1 [blk H1; blk H2] ];
+                SAnnounceMsg 7 H3 2; SAnnounceMsg 8 H3 2; SAnnounceMsg 7 H4 2; SAnnounceMsg 7 far 2;
+                SAnnounceMsg 7 H2 2;
+                SProcess [ mkres 7 true (mkreq 18 0) [ mkbd 3 None true false ] ] ] in
+  steps_wf_b hist = true /\
+  match run true true true [4] (init_state 0) hist with
+  | ([Some r1; Some a1; Some a2; Some a3; Some a4; Some a5; Some r2], false, st) =>
+    pr_events r1 = [EImport 1; EImport 2]
+    /\ pr_reps a1 = [(7, REP_GOSSIP_OK)] /\ p_queue (pr_state a1) = [QBody 3]
+    /\ map d_hash (u_incomplete (p_un (pr_state a1))) = [3]
+    /\ pr_reps a2 = [(8, REP_NOT_RELEVANT)] /\ pr_reps a3 = [(7, REP_BAD_ANNOUNCE)]
+    /\ pr_reps a4 = [] /\ pr_reps a5 = [(7, REP_GOSSIP_OK)] /\ p_queue (pr_state a5) = [QBody 3]
+    /\ pr_events r2 = [EImport 3] /\ u_incomplete (p_un st) = []
   | _ => False
   end.
 Proof. vm_compute. repeat split; reflexivity. Qed.
